@@ -44,6 +44,10 @@ pub struct Net {
     pending_send: Option<(Bytes, usize, Option<Waker>)>,
     /// stall steps for the next sends (front = next send)
     pub send_stalls: VecDeque<usize>,
+    /// per send (front = next send): what happens AFTER the bytes were handed to the peer -
+    /// 0 = nothing, n > 0 = the send stays pending for n more steps ("flush pending"),
+    /// usize::MAX = the send reports an I/O error although the bytes went out
+    pub send_after: VecDeque<usize>,
     /// the transport reports a closed connection on recv once rx is drained
     pub closed: bool,
     pub sends: usize,
@@ -65,6 +69,7 @@ impl Net {
             rx_waker: None,
             pending_send: None,
             send_stalls: VecDeque::new(),
+            send_after: VecDeque::new(),
             closed: false,
             sends: 0,
             recvs: 0,
@@ -147,13 +152,24 @@ impl Future for SendFut {
             let d = self.data.take().expect("polled after completion");
             n.sends += 1;
             let stall = n.send_stalls.pop_front().unwrap_or(0);
+            let after = n.send_after.pop_front().unwrap_or(0);
             if stall > 0 {
+                // (a send that is stalled before its bytes go out completes normally afterwards)
                 n.pending_send = Some((d, stall, Some(cx.waker().clone())));
                 self.queued = true;
                 return Poll::Pending;
             }
             n.to_server(&d);
-            return Poll::Ready(Ok(()));
+            match after {
+                0 => return Poll::Ready(Ok(())),
+                usize::MAX => return Poll::Ready(Err(Error::Transport(std::io::Error::new(std::io::ErrorKind::BrokenPipe, "simulated write error after the bytes went out")))),
+                after => {
+                    // the bytes are out, the flush is not: an empty pending send keeps the future pending
+                    n.pending_send = Some((Bytes::new(), after, Some(cx.waker().clone())));
+                    self.queued = true;
+                    return Poll::Pending;
+                }
+            }
         }
         match n.pending_send.as_mut() {
             Some(p) => {
